@@ -156,18 +156,18 @@ func (a *BigInt) M__neg__() (Object, error) {
 }
 
 func (a *BigInt) M__pos__() (Object, error) {
-	return a, nil
+	return a.MaybeInt(), nil
 }
 
 func (a *BigInt) M__abs__() (Object, error) {
 	if (*big.Int)(a).Sign() >= 0 {
-		return a, nil
+		return a.MaybeInt(), nil
 	}
-	return (*BigInt)(new(big.Int).Abs((*big.Int)(a))), nil
+	return (*BigInt)(new(big.Int).Abs((*big.Int)(a))).MaybeInt(), nil
 }
 
 func (a *BigInt) M__invert__() (Object, error) {
-	return (*BigInt)(new(big.Int).Not((*big.Int)(a))), nil
+	return (*BigInt)(new(big.Int).Not((*big.Int)(a))).MaybeInt(), nil
 }
 
 func (a *BigInt) M__add__(other Object) (Object, error) {
@@ -521,7 +521,7 @@ func (a *BigInt) M__index__() (Int, error) {
 }
 
 func (a *BigInt) M__int__() (Object, error) {
-	return a, nil
+	return a.MaybeInt(), nil
 }
 
 func (a *BigInt) M__float__() (Object, error) {
@@ -542,7 +542,7 @@ func (a *BigInt) M__round__(digits Object) (Object, error) {
 	}
 	if b, ok := ConvertToBigInt(digits); ok {
 		if (*big.Int)(b).Sign() >= 0 {
-			return a, nil
+			return a.MaybeInt(), nil
 		}
 		negative := false
 		r := new(big.Int).Set((*big.Int)(a))
@@ -562,7 +562,7 @@ func (a *BigInt) M__round__(digits Object) (Object, error) {
 		if negative {
 			r.Neg(r)
 		}
-		return (*BigInt)(r), nil
+		return (*BigInt)(r).MaybeInt(), nil
 	}
 	return cantConvert(digits, "int")
 }
